@@ -10,7 +10,7 @@
 //! outputs (deterministic apart from the verdict):
 //!   `a <v> ok|late|missing|lost|dup`   per `send`, in op order     (bound: 4·(d+2)·δ + 400 ms)
 //!   `t <first> ok|late:<v>|missing:<v>|lost:<v>|dup:<v>`  per `trickle` (first offending element)
-//!   `result <mode> [sorted outputs]`   for adaptive, single, fixed1, fixed1000 (same scripted input, no
+//!   `result <mode> [sorted outputs]`   for adaptive, single, fixed1, fixed3, fixed1000, adaptive2, adaptive5 (same scripted input, no
 //!                                      pauses for the non-adaptive modes; the sender is closed at the end)
 //! and a `# info …` comment line with the measured numbers (ignored by the driver and by bin/check).
 use std::io::Write;
@@ -279,6 +279,8 @@ fn exec(c: &Case) -> (Vec<String>, String) {
         let mut all_ok = !r.hang;
         // every failure of this attempt is confirmed by overtaking: no point in retrying
         let mut confirmed = !r.hang;
+        // `missing` (withheld until the sender was dropped), `lost`, `dup` are never retried
+        let mut hard = r.hang;
         let mut idx = 0usize;
         let mut lats: Vec<String> = vec![];
         for st in &steps {
@@ -287,6 +289,7 @@ fn exec(c: &Case) -> (Vec<String>, String) {
                     let (w, lat) = verdict(&r, d, bound_d, v, r.sends[idx].1);
                     if w != "ok" {
                         confirmed &= overtaken(&r, d, bound_d, v, r.sends[idx].1);
+                        hard |= w != "late";
                     }
                     idx += 1;
                     worst = worst.max(lat.unwrap_or_default());
@@ -305,6 +308,7 @@ fn exec(c: &Case) -> (Vec<String>, String) {
                             line = format!("t {first} {w}:{v}");
                             all_ok = false;
                             confirmed = false;
+                            hard |= w != "late";
                         }
                     }
                     out.push(line);
@@ -320,14 +324,18 @@ fn exec(c: &Case) -> (Vec<String>, String) {
             attempt,
             lats.join(",")
         );
-        if all_ok || confirmed {
+        if all_ok || confirmed || hard {
             break;
         }
     }
+    let dl = Duration::from_millis(delta);
     for (name, bm) in [
         ("single", BatchMode::single()),
         ("fixed1", BatchMode::fixed(1)),
+        ("fixed3", BatchMode::fixed(3)),
         ("fixed1000", BatchMode::fixed(1000)),
+        ("adaptive2", BatchMode::adaptive(2, dl)),
+        ("adaptive5", BatchMode::adaptive(5, dl)),
     ] {
         let r = run_engine(d, p, kind, bm, &steps, false, 0);
         out.push(fmt_result(name, &r));
